@@ -5,16 +5,19 @@ CONSTANTS Ctx <- McCtx
  Devs = {}
  Kinds = {"issue", "repl", "axfer", "freeze", "unfreeze", "xfer"}
  From = {"a1", "a2"}
- XTo = {"a1", "a3"}
+ XTo = {"a1", "a3", "KO", "KD"}
  XAmt = {100}
  Payers = {}
  Voters = {}
  Cands = {}
  RegAmt = {}
  AFrom = {"a1", "a2", "a3", "a4"}
- ATo = {"a1", "a2", "a3", "a4", "Z", "KR", "KS"}
+ ATo = {"a1", "a2", "a3", "a4", "Z", "KR", "KS", "KO", "KD"}
  AAmt <- McAAmtS
  IAmt <- McIAmtS
+ ACodes = {"T", "N", "C", "G"}
+ AIds = {"T", "N1", "N2", "C1", "C2", "G1", "X1", "X2"}
+ BGL = {}
  BoxFrom = {}
  BoxTo = {}
  RewFrom = {}
